@@ -546,7 +546,17 @@ func RunBatch(c *vh.Ctx, idx int, progs []*Prog, runTimeout time.Duration) *Batc
 	}
 	var jobs []job
 	for _, p := range progs {
-		if _, r := res.Refused[p.Name]; r {
+		if rf, r := res.Refused[p.Name]; r {
+			// a file the command refused at the parse stage must be a parse error for the interpreter too
+			if rf.Stage == "parse" {
+				os.WriteFile(filepath.Join(entry, p.Name+".php"), []byte(p.Src), 0o644)
+				for rel, s := range p.Libs {
+					f := filepath.Join(lib, rel)
+					os.MkdirAll(filepath.Dir(f), 0o755)
+					os.WriteFile(f, []byte(s), 0o644)
+				}
+				jobs = append(jobs, job{p, "interp"})
+			}
 			continue
 		}
 		if _, r := res.Unbuilt[p.Name]; r {
